@@ -20,6 +20,9 @@ import (
 type C16Case struct {
 	Doc    []byte `json:"doc"`
 	Subset bool   `json:"subset"`
+	Pre    int    `json:"pre,omitempty"`   // > 0: the document is the second file of its set, behind a file of that many bytes
+	Disk   bool   `json:"disk,omitempty"`  // the document is written to disk and loaded with text.ReadFile (as examples/json does)
+	PadWS  int    `json:"padWs,omitempty"` // > 0: that many spaces and one CRLF are put in front of the document (large files)
 }
 
 func (c *C16Case) Describe() string { return fmt.Sprintf("subset=%v doc=%q", c.Subset, c.Doc) }
@@ -136,6 +139,17 @@ func genC16(t *rapid.T) interface{} {
 			i := rapid.IntRange(0, len(doc)-1).Draw(t, "di")
 			c.Doc = []byte(doc[:i] + doc[i+1:])
 		}
+	}
+	switch rapid.IntRange(0, 5).Draw(t, "place") {
+	case 0, 1:
+		c.Pre = rapid.IntRange(1, 40).Draw(t, "pre")
+	case 2:
+		c.Pre = rapid.SampledFrom([]int{65530, 65536, 70000}).Draw(t, "prehuge")
+	}
+	c.Disk = rapid.IntRange(0, 3).Draw(t, "disk") == 0
+	if rapid.IntRange(0, 30).Draw(t, "pad") == 7 {
+		c.Disk = true
+		c.PadWS = rapid.SampledFrom([]int{65533, 65534, 65535, 65536, 131070, 131071, 131072}).Draw(t, "padws")
 	}
 	return c
 }
@@ -266,6 +280,10 @@ func jsonDepth(v interface{}) (depth int, object bool) {
 }
 
 func checkJSONDoc(doc string, subset bool, st *Stats) (err error) {
+	return checkJSONDocAt(doc, subset, 0, false, st)
+}
+
+func checkJSONDocAt(doc string, subset bool, pre int, disk bool, st *Stats) (err error) {
 	var got interface{}
 	var gerr error
 	func() {
@@ -275,14 +293,37 @@ func checkJSONDoc(doc string, subset bool, st *Stats) (err error) {
 			}
 		}()
 		f := text.NewFile("f", []byte(doc))
-		ctx := parsley.NewContext(parsley.NewFileSet(f), text.NewReader(f))
+		if disk {
+			var derr error
+			if f, _, derr = fileViaDisk([]byte(doc)); derr != nil {
+				err = Discard{"temporary file: " + derr.Error()}
+				return
+			}
+		}
+		newSet := func() *parsley.FileSet {
+			if pre > 0 {
+				return parsley.NewFileSet(text.NewFile("pre", bytes.Repeat([]byte("[1, 2]\n"), pre/7+1)[:pre]), f)
+			}
+			return parsley.NewFileSet(f)
+		}
+		ctx := parsley.NewContext(newSet(), text.NewReader(f))
 		got, gerr = parsley.Evaluate(ctx, jsonP)
 		// the same loaded file evaluated again (fresh context and reader) must give the same answer:
 		// evaluating must not consume or rewrite the document
-		ctx2 := parsley.NewContext(parsley.NewFileSet(f), text.NewReader(f))
+		ctx2 := parsley.NewContext(newSet(), text.NewReader(f))
 		got2, gerr2 := parsley.Evaluate(ctx2, jsonP)
 		if (gerr == nil) != (gerr2 == nil) || (gerr == nil && !reflect.DeepEqual(got, got2)) || (gerr != nil && gerr.Error() != gerr2.Error()) {
 			err = fmt.Errorf("a second evaluation of the same loaded file differs: first %#v / %v, second %#v / %v", got, gerr, got2, gerr2)
+			return
+		}
+		// one parsed tree evaluated twice: evaluating must not change the tree
+		ctx3 := parsley.NewContext(newSet(), text.NewReader(f))
+		if node, perr := parsley.Parse(ctx3, jsonP); perr == nil {
+			v1, e1 := parsley.EvaluateNode(nil, node)
+			v2, e2 := parsley.EvaluateNode(nil, node)
+			if (e1 == nil) != (e2 == nil) || !reflect.DeepEqual(v1, v2) || (gerr == nil && e1 == nil && !reflect.DeepEqual(v1, got)) {
+				err = fmt.Errorf("evaluating one parsed tree twice differs: first %#v / %v, second %#v / %v (Evaluate gave %#v)", v1, e1, v2, e2, got)
+			}
 		}
 	}()
 	if err != nil {
@@ -379,7 +420,21 @@ func checkJSONDoc(doc string, subset bool, st *Stats) (err error) {
 
 func checkC16(ci interface{}, st *Stats) error {
 	c := ci.(*C16Case)
-	return checkJSONDoc(string(c.Doc), c.Subset, st)
+	doc := string(c.Doc)
+	if c.PadWS > 0 {
+		if c.PadWS > 1<<18 {
+			return Discard{"padding too long"}
+		}
+		doc = strings.Repeat(" ", c.PadWS) + "\r\n" + doc
+		st.Class("large document (leading whitespace run with a CRLF)")
+	}
+	if c.Pre > 0 {
+		st.Class("document is the second file of its set")
+	}
+	if c.Disk {
+		st.Class("document loaded with text.ReadFile")
+	}
+	return checkJSONDocAt(doc, c.Subset, c.Pre, c.Disk, st)
 }
 
 func init() {
